@@ -5,7 +5,8 @@
      GenPanic.v    PANIC_SELECTOR_BYTES, slice bounds, is_panic_decide   (CallOutput.is_panic_of)
      GenRunTest.v  Exitcode values, classify, stuck_counts, width_cut, verdict,
                    setup_path_ok, setup_keeps, {setup,test,target}_warns_loop_bound  (run_test / setup / run_target_function)
-   Solver answers: S_UNSAT = 0, S_SAT = 1, S_UNKNOWN = 2, S_ERR = 3. *)
+   Solver answers: S_UNSAT = 0, S_SAT = 1, S_UNKNOWN = 2, S_ERR = 3 (also a failed solver call);
+   S_SHUTDOWN = 4: no answer, the call was interrupted by the early exit. *)
 From Coq Require Import ZArith List Bool.
 From HV Require Import Gen.GenPanic Gen.GenRunTest Spec.PanicSpec.
 Import ListNotations.
@@ -131,11 +132,23 @@ Section RunTest.
               else a)
     end.
 
+  (* confirming a stuck path was interrupted by ShutdownError (solve_low answers S_SHUTDOWN): `break` *)
+  Definition shutdown_at (codes : list Z) (l : leaf) : bool :=
+    match is_panic_of (l_err l) (l_data l) codes with
+    | TRaise => false
+    | p =>
+        let panic_found := match p with TTrue => true | _ => false end in
+        stuck_shutdown_breaks
+        && (classify panic_found (global_fail (l_ctx l)) (is_stuck l) (has_error l) =? CL_STUCK)
+        && (solve_low (l_query l) =? S_SHUTDOWN)
+    end.
+
   (* the main loop of run_test: `for path_id, ex in enumerate(exs)` *)
   Fixpoint loop (codes : list Z) (width : Z) (path_id : Z) (ls : list leaf) (a : acc) : acc :=
     match ls with
     | [] => a
     | l :: rest =>
+        if shutdown_at codes l then a else
         match step_leaf codes l a with
         | None => mkAcc (a_results a) (a_stuck a) (a_normal a) true (a_width_warn a)
         | Some a' =>
